@@ -386,3 +386,6 @@ Proof.
     + intros A' pids Hc. rewrite Ep in Hc. apply in_map_iff in Hc as [p [Hp _]]. discriminate.
     + intros e2 _ _ _ o Ho. rewrite Ep in Ho. apply in_map_iff in Ho as [p [<- _]]. eauto.
 Qed.
+
+Lemma reachable_sorted h ops : sorted (claimable (fst (run (init h) ops))).
+Proof. apply run_sorted. apply init_sorted. Qed.
